@@ -88,3 +88,19 @@ Theorem C08_unsolved_use_is_symbolic :
     resolve cx (PLabel k s) = Ok (CSym d).
 Proof. exact unsolved_use_is_symbolic. Qed.
 Print Assumptions C08_unsolved_use_is_symbolic.
+
+(* ... and the size of a struct field read with @sizeof is captured in the same way (the value it has at the use, if it
+   can be computed there; a reference resolved when linking otherwise) *)
+Theorem C08_solved_sizeof_is_constant :
+  forall cx k s d v,
+    qualify (c_ns cx) k s = Ok d -> eval_top (c_st cx) [NSizeOf d] = Val v ->
+    resolve cx (PSizeOf k s) = Ok (CNum v).
+Proof. exact solved_sizeof_is_constant. Qed.
+Print Assumptions C08_solved_sizeof_is_constant.
+
+Theorem C08_unsolved_sizeof_is_symbolic :
+  forall cx k s d,
+    qualify (c_ns cx) k s = Ok d -> (forall v, eval_top (c_st cx) [NSizeOf d] <> Val v) ->
+    resolve cx (PSizeOf k s) = Ok (CSizeof d).
+Proof. exact unsolved_sizeof_is_symbolic. Qed.
+Print Assumptions C08_unsolved_sizeof_is_symbolic.
